@@ -20,7 +20,7 @@ RULE = ('Domain 1 (timeouts, virtual time): one phase under test with duration d
         'sets its measurement, attaches, logs, returns FAIL} x position {alone, group main with teardown, group setup, group '
         'teardown} x repeat_on_timeout; the whole grid is enumerated and every case is also run under every single preemption of '
         'a line-level schedule (sampled shards in the quick tier).  Oracle: d < t => never TIMEOUT and the body\'s own result is '
-        'recorded; d > t + poll => outcome TIMEOUT, teardown phases and plug tearDown executed, execute() returns by virtual time '
+        'recorded; d > t => outcome TIMEOUT (also for a body that returns within the 3 s join poll after its deadline), teardown phases and plug tearDown executed, execute() returns by virtual time '
         't + poll + teardown cost even for the unkillable body (the scheduler reports a hang otherwise); late actions of an '
         'abandoned body change no other phase\'s record.  Domain 2 (KillableThread alone): a killer thread calls kill() while a '
         'killable thread goes through start / lock / body (4 steps) / exception handler / finish handler; ALL schedules with <=2 '
@@ -29,8 +29,7 @@ RULE = ('Domain 1 (timeouts, virtual time): one phase under test with duration d
         'steps left => the body does not finish.  Non-trivial = |d - t| <= eps or d within the poll window, or a kill that lands '
         'within two yield points of a state change of the target; distinct by canonical case.  The grid also contains bodies that '
         'return REPEAT twice and then a value, each invocation taking 0.3-0.9 of timeout_s (the timeout is per invocation).')
-ASSUMPTIONS = ['Virtual time; PyThreadState_SetAsyncExc is modelled as "pending exception raised at the target\'s next yield point".',
-               'A body that finishes within the join-poll window after its deadline (t < d <= t+3) may be reported either way.']
+ASSUMPTIONS = ['Virtual time; PyThreadState_SetAsyncExc is modelled as "pending exception raised at the target\'s next yield point".']
 
 EPS = 0.01
 POLL = 3.0
@@ -213,7 +212,7 @@ def check_timeout(case):
           tag, case['t'], case['d'], n_inv, puts))
     elif case['kind'] == 'late' and not (puts and puts[-1][1] == 'FAIL'):
       r.bad('C12/timeout/own-result-lost', '%s: body returned FAIL_AND_CONTINUE in time but its record is %r' % (tag, puts))
-  elif d > t + POLL + EPS and not stalled:
+  elif d > t + EPS / 2 and not stalled:
     if res['outcome'] != 'TIMEOUT':
       r.bad('C12/timeout/not-reported', '%s t=%s d=%s: body still running at the deadline but outcome is %s' % (tag, case['t'], case['d'], res['outcome']))
     if not any(e[0] == 'plug-td' for e in log):
